@@ -247,46 +247,73 @@ Definition payload_of (x : xkind) (body : str) : option str :=
   end.
 
 (* ------------------------------------------------------------------ *)
-(* the specification, judged on totals: [cap] the limit in force, [body] the
+(* per-case facts about the body, computed once (a case has many runs and a
+   body may be 140 KB): the body, and its "region" = the bytes a handler can
+   legitimately be shown: the body itself (untyped, streaming), the decoded
+   string (typed; empty when the body does not decode), the field's bytes
+   present in the body (multipart) *)
+Record binfo := BI {
+  bi_body : str; bi_len : N;
+  bi_region : str; bi_rlen : N; bi_rcks : N;
+  bi_valid : bool      (* the body is one the endpoint's type accepts; then the payload is the region *)
+}.
+
+Definition mk_binfo (x : xkind) (body : str) : binfo :=
+  let region :=
+    match x with
+    | XMultipart => mp_seen body
+    | _ => match payload_of x body with Some p => p | None => [] end
+    end in
+  BI body (blen body) region (blen region) (cks region)
+     (match payload_of x body with Some _ => true | None => false end).
+
+(* checksum of the first l bytes of the region *)
+Definition pcks (bi : binfo) (l : N) : N :=
+  if l =? bi_rlen bi then bi_rcks bi else cks (firstn (N.to_nat l) (bi_region bi)).
+
+(* checksum of [s], reusing the case's when [s] is the region *)
+Definition cks_m (bi : binfo) (s : str) : N :=
+  if str_eqb s (bi_region bi) then bi_rcks bi else cks s.
+
+(* ------------------------------------------------------------------ *)
+(* the specification, judged on totals: [cap] the limit in force, [bi] the
    bytes sent, [st] the status answered, [h] what the handler side saw.
    No reference to the model's stream. *)
 
 (* "No handler, buffered or streaming, ever observes more body bytes than the
-   limit" — and what it observes are the body's own bytes *)
-Definition spec_never_more (x : xkind) (cap : N) (body : str) (h : hobs) : bool :=
+   limit" — and what it observes are the body's own bytes, from the start *)
+Definition spec_never_more (x : xkind) (cap : N) (bi : binfo) (h : hobs) : bool :=
   match h with
   | HRefused _ => true
   | HPanic => false
   | HBuf l c =>
       match x with
-      | XUntyped => (l <=? cap) && (cks (firstn (N.to_nat l) body) =? c)
-      | _ => l <=? cap   (* decoded string: shorter than the body it came from *)
+      | XUntyped => (l <=? cap) && (l <=? bi_rlen bi) && (pcks bi l =? c)
+      | _ => l <=? cap   (* decoded string: not longer than the body it came from *)
       end
   | HStream z c _ =>
-      running_ok cap 0 z && (cks (firstn (N.to_nat (sum z)) body) =? c)
+      running_ok cap 0 z && (sum z <=? bi_rlen bi) && (pcks bi (sum z) =? c)
   | HMulti l c _ =>
-      (l <=? cap) && (cks (firstn (N.to_nat l) (mp_seen body)) =? c)
+      (l <=? cap) && (l <=? bi_rlen bi) && (pcks bi l =? c)
   end.
 
 (* "a body of at most that many bytes is accepted and delivered intact" *)
-Definition spec_accept (x : xkind) (body : str) (st : N) (h : hobs) : bool :=
-  match payload_of x body with
-  | None =>
-      (* not a body the endpoint's type accepts at all: nothing to deliver;
-         it must not crash *)
-      negb (match h with HPanic => true | _ => false end) && negb (500 <=? st)
-  | Some p =>
-      is2xx st &&
-      match x with
-      | XJson | XForm | XUntyped => hobs_eqb h (HBuf (blen p) (cks p))
-      | XStreaming =>
-          match h with
-          | HStream z c None => (sum z =? blen p) && (c =? cks p)
-          | _ => false
-          end
-      | XMultipart => hobs_eqb h (HMulti (blen p) (cks p) false)
-      end
-  end.
+Definition spec_accept (x : xkind) (bi : binfo) (st : N) (h : hobs) : bool :=
+  if bi_valid bi then
+    is2xx st &&
+    match x with
+    | XJson | XForm | XUntyped => hobs_eqb h (HBuf (bi_rlen bi) (bi_rcks bi))
+    | XStreaming =>
+        match h with
+        | HStream z c None => (sum z =? bi_rlen bi) && (c =? bi_rcks bi)
+        | _ => false
+        end
+    | XMultipart => hobs_eqb h (HMulti (bi_rlen bi) (bi_rcks bi) false)
+    end
+  else
+    (* not a body the endpoint's type accepts at all: nothing to deliver; it
+       must not crash *)
+    negb (match h with HPanic => true | _ => false end) && negb (500 <=? st).
 
 (* "any larger body is refused with a 400-level error however it is framed";
    for the buffered extractors the handler is not entered; for the streaming
@@ -299,9 +326,9 @@ Definition spec_refuse (x : xkind) (st : N) (h : hobs) : bool :=
   | XMultipart => match h with HMulti _ _ true => true | _ => false end
   end.
 
-Definition spec (x : xkind) (cap : N) (body : str) (st : N) (h : hobs) : bool :=
-  spec_never_more x cap body h &&
-  (if blen body <=? cap then spec_accept x body st h else spec_refuse x st h).
+Definition spec (x : xkind) (cap : N) (bi : binfo) (st : N) (h : hobs) : bool :=
+  spec_never_more x cap bi h &&
+  (if bi_len bi <=? cap then spec_accept x bi st h else spec_refuse x st h).
 
 (* ------------------------------------------------------------------ *)
 (* what the model expects to be observed *)
@@ -319,25 +346,23 @@ Definition status_of_delivery (d : delivery str mres) : N :=
    number of field bytes multer releases before reporting the error is its
    own business: it must be an initial part of the field bytes in the stream
    it was given. *)
-Definition matches (d : delivery str mres) (h : hobs) : bool :=
+Definition mp_partial_ok (bi : binfo) (s : str) (l c : N) : bool :=
+  let seen := mp_seen s in
+  (l <=? blen seen) &&
+  ((if str_eqb seen (bi_region bi) then pcks bi l else cks (firstn (N.to_nat l) seen)) =? c).
+
+Definition matches (bi : binfo) (d : delivery str mres) (h : hobs) : bool :=
   match d with
   | DRefused st => hobs_eqb h (HRefused st)
-  | DTyped v => hobs_eqb h (HBuf (blen v) (cks v))
-  | DBytes b => hobs_eqb h (HBuf (blen b) (cks b))
-  | DStream ys o => hobs_eqb h (HStream (map blen ys) (cks (concat ys)) (outcome_status o))
-  | DMultipart (MFields p) => hobs_eqb h (HMulti (blen p) (cks p) false)
+  | DTyped v => hobs_eqb h (HBuf (blen v) (cks_m bi v))
+  | DBytes b => hobs_eqb h (HBuf (blen b) (cks_m bi b))
+  | DStream ys o =>
+      hobs_eqb h (HStream (map blen ys) (cks_m bi (concat ys)) (outcome_status o))
+  | DMultipart (MFields p) => hobs_eqb h (HMulti (blen p) (cks_m bi p) false)
   | DMultipart (MBad s) =>
-      match h with
-      | HMulti l c _ =>
-          let seen := mp_seen s in (l <=? blen seen) && (cks (firstn (N.to_nat l) seen) =? c)
-      | _ => false
-      end
+      match h with HMulti l c _ => mp_partial_ok bi s l c | _ => false end
   | DMultipart (MFail s) =>
-      match h with
-      | HMulti l c true =>
-          let seen := mp_seen s in (l <=? blen seen) && (cks (firstn (N.to_nat l) seen) =? c)
-      | _ => false
-      end
+      match h with HMulti l c true => mp_partial_ok bi s l c | _ => false end
   end.
 
 (* status implied by an observation of a direct run (there is no HTTP
@@ -368,12 +393,13 @@ Definition worst (a b : N) : N :=
   else if (a =? V_DIVERGE) || (b =? V_DIVERGE) then V_DIVERGE
   else V_AGREE.
 
-Definition judge_direct (x : xkind) (ov : option N) (def : N) (body : str) (r : drun) : N :=
+Definition judge_direct (x : xkind) (ov : option N) (def : N) (bi : binfo) (r : drun) : N :=
+  let body := bi_body bi in
   let '(DRun cuts hdr h pol) := r in
   match hdrs_of x hdr with
   | None => V_MALFORMED
   | Some hd =>
-      if negb (cuts_total cuts =? blen body) then V_MALFORMED else
+      if negb (cuts_total cuts =? bi_len bi) then V_MALFORMED else
       let cap := effective_cap ov def in
       let fs := frames_of body cuts in
       let rq := mk_rq x ov def in
@@ -385,8 +411,8 @@ Definition judge_direct (x : xkind) (ov : option N) (def : N) (body : str) (r : 
       let d := ext x rq hd fs in
       let plain := cuts_noerr cuts && hdr_plain x hdr in
       let spec_ok :=
-        if plain then spec x cap body (direct_status h) h
-        else spec_never_more x cap body h in
+        if plain then spec x cap bi (direct_status h) h
+        else spec_never_more x cap bi h in
       let model_pol :=
         match x with
         | XMultipart => match h_mp hd with MHOk => frames_polled cap fs | _ => 0 end
@@ -398,7 +424,7 @@ Definition judge_direct (x : xkind) (ov : option N) (def : N) (body : str) (r : 
         | _ => pol =? model_pol
         end in
       if negb spec_ok then V_VIOLATION
-      else if matches d h && pol_ok then V_AGREE
+      else if matches bi d h && pol_ok then V_AGREE
       else V_DIVERGE
   end.
 
@@ -427,21 +453,22 @@ Definition witness_frames (cap : N) (body : str) (h : hobs) : list frame :=
       else [FData (firstn (N.to_nat cap) body); FData (skipn (N.to_nat cap) body)]
   end.
 
-Definition judge_live (x : xkind) (ov : option N) (def : N) (body : str) (r : lrun) : N :=
+Definition judge_live (x : xkind) (ov : option N) (def : N) (bi : binfo) (r : lrun) : N :=
+  let body := bi_body bi in
   let '(LRun st h healthy) := r in
   let cap := effective_cap ov def in
   let rq := mk_rq x ov def in
   match hdrs_of x 0 with
   | None => V_MALFORMED
   | Some hd =>
-      if negb (match h with HStream z _ _ => sum z <=? blen body | _ => true end)
+      if negb (match h with HStream z _ _ => sum z <=? bi_len bi | _ => true end)
       then V_VIOLATION (* more bytes than were sent *) else
       let fs := witness_frames cap body h in
       let d := ext x rq hd fs in
       (* hyper's contract (trusted base): the frames spell the body *)
       if negb (str_eqb (body_of fs) body) then V_MALFORMED else
-      if negb (spec x cap body st h) then V_VIOLATION
-      else if matches d h && (st =? status_of_delivery d) && healthy then V_AGREE
+      if negb (spec x cap bi st h) then V_VIOLATION
+      else if matches bi d h && (st =? status_of_delivery d) && healthy then V_AGREE
       else V_DIVERGE
   end.
 
@@ -455,17 +482,19 @@ Definition judge (c : c11case) : N :=
         (cap =? request_body_max_bytes {| rq_endpoint := lookup_meta e; rq_default := def |}) in
       if negb spec_ok then V_VIOLATION else if model_ok then V_AGREE else V_DIVERGE
   | CDirect x ov def segs runs =>
-      let body := expand segs in
-      fold_left (fun acc r => worst acc (judge_direct x ov def body r)) runs V_AGREE
+      let bi := mk_binfo x (expand segs) in
+      fold_left (fun acc r => worst acc (judge_direct x ov def bi r)) runs V_AGREE
   | CLive x ov def segs runs =>
-      let body := expand segs in
-      fold_left (fun acc r => worst acc (judge_live x ov def body r)) runs V_AGREE
+      let bi := mk_binfo x (expand segs) in
+      fold_left (fun acc r => worst acc (judge_live x ov def bi r)) runs V_AGREE
   end.
 
 (* per-run verdicts, for locating the failing run of a case by hand *)
 Definition judge_runs (c : c11case) : list N :=
   match c with
   | CSelect _ _ _ _ => [judge c]
-  | CDirect x ov def segs runs => map (judge_direct x ov def (expand segs)) runs
-  | CLive x ov def segs runs => map (judge_live x ov def (expand segs)) runs
+  | CDirect x ov def segs runs =>
+      let bi := mk_binfo x (expand segs) in map (judge_direct x ov def bi) runs
+  | CLive x ov def segs runs =>
+      let bi := mk_binfo x (expand segs) in map (judge_live x ov def bi) runs
   end.
